@@ -41,6 +41,14 @@ PField(n) == n
 PIndex(i) == "[" \o ToString(i - 1) \o "]"
 PKey(kv) == "{" \o kv.tok \o "}"
 
+\* A location is a sequence of *segments*, one per method on the call path, each the elements that method was setting.
+\* wrapErrorsUsing reports all of them outermost first; wrapErrors reports, per method, the innermost element of its segment.
+AddE(path, e) == [path EXCEPT ![Len(path)] = Append(@, e)]
+RECURSIVE FlatP(_)
+FlatP(path) == IF path = <<>> THEN <<>> ELSE Head(path) \o FlatP(Tail(path))
+RECURSIVE ChainP(_)
+ChainP(path) == IF path = <<>> THEN <<>> ELSE (IF Head(path) = <<>> THEN <<>> ELSE <<Head(path)[Len(Head(path))]>>) \o ChainP(Tail(path))
+Reported(prog, path) == IF prog.wrap = "using" THEN FlatP(path) ELSE IF prog.wrap = "plain" THEN ChainP(path) ELSE <<>>
 RECURSIVE Eval(_,_,_,_,_,_), EvalFields(_,_,_,_,_,_,_,_,_), EvalElems(_,_,_,_,_,_,_,_)
 \* path: the location of the current position relative to the root (a sub-method starts a new relative path, its caller
 \* prepends its own: composing outermost first gives the path from the root)
@@ -49,7 +57,7 @@ Eval(prog, ms, ir, v, faults, path) ==
     [] ir.k = "ext" -> IF ir.fn = "C" THEN Ok(MarkC(v)) ELSE IF ir.retErr /\ v.tok \in faults THEN Er(v.tok, path) ELSE Ok(Mark(prog, v))
     [] ir.k = "cast" -> Eval(prog, ms, ir.x, v, faults, path)
     [] ir.k = "mth" -> IF ir.retErr /\ v.tok \in faults THEN Er(v.tok, path) ELSE Ok(v)
-    [] ir.k = "call" -> Eval(prog, ms, ms[ir.callee].body, v, faults, path)
+    [] ir.k = "call" -> Eval(prog, ms, ms[ir.callee].body, v, faults, Append(path, <<>>))
     [] ir.k = "valptr" -> LET r == Eval(prog, ms, ir.x, v, faults, path) IN IF r.err # "" THEN r ELSE Ok([k |-> "p", e |-> r.v])
     [] ir.k = "srcptr" -> IF v = Nil THEN Ok(ZeroT(prog, ir.t)) ELSE Eval(prog, ms, ir.x, v.e, faults, path)
     [] ir.k = "ptrptr" -> IF v = Nil THEN Ok(Nil)
@@ -58,7 +66,7 @@ Eval(prog, ms, ir, v, faults, path) ==
     [] ir.k = "map" -> IF v = Nil THEN Ok(Nil)
                        ELSE IF v.kv = {} THEN Ok([k |-> "m", kv |-> {}])
                        ELSE LET e == CHOOSE x \in v.kv : TRUE
-                                pk == Append(path, PKey(e[1]))
+                                pk == AddE(path, PKey(e[1]))
                                 rk == Eval(prog, ms, ir.kx, e[1], faults, pk) IN
                             IF rk.err # "" THEN rk
                             ELSE LET rv == Eval(prog, ms, ir.vx, e[2], faults, pk) IN
@@ -66,11 +74,11 @@ Eval(prog, ms, ir, v, faults, path) ==
     [] ir.k = "struct" -> EvalFields(prog, ms, ir.fs, v, 1, <<>>, faults, path, ir.names)
 EvalFields(prog, ms, fs, v, i, acc, faults, path, names) ==
   IF i > Len(fs) THEN Ok([k |-> "st", fs |-> acc])
-  ELSE LET r == Eval(prog, ms, fs[i].x, v.fs[fs[i].src], faults, Append(path, PField(names[i]))) IN
+  ELSE LET r == Eval(prog, ms, fs[i].x, v.fs[fs[i].src], faults, AddE(path, PField(names[i]))) IN
        IF r.err # "" THEN r ELSE EvalFields(prog, ms, fs, v, i + 1, Append(acc, r.v), faults, path, names)
 EvalElems(prog, ms, x, es, i, acc, faults, path) ==
   IF i > Len(es) THEN Ok([k |-> "s", es |-> acc])
-  ELSE LET r == Eval(prog, ms, x, es[i], faults, Append(path, PIndex(i))) IN
+  ELSE LET r == Eval(prog, ms, x, es[i], faults, AddE(path, PIndex(i))) IN
        IF r.err # "" THEN r ELSE EvalElems(prog, ms, x, es, i + 1, Append(acc, r.v), faults, path)
 
 \* ---------------- declarative (C06 / C07)
@@ -123,28 +131,32 @@ Reached(prog, s, t, v, faults) ==
        UNION {Reached(prog, sf[i].t, tf[i].t, v.fs[i], faults) : i \in DOMAIN tf}
 \* C07, wrapErrorsUsing: the location of the first failing position in conversion order (fields in target order, elements
 \* in order, map key before map value): target field names, slice indices, source map keys, outermost first.  <<"-">> = none
-RECURSIVE FaultPath(_,_,_,_,_,_), FaultFields(_,_,_,_,_,_,_), FaultElems(_,_,_,_,_,_,_)
-NoPath == <<"-">>
-FaultPath(prog, s, t, v, faults, path) ==
+\* A method encloses the conversion of a named struct, or of a pointer to one together with its pointee (`cont`): these are the
+\* positions at which a new segment starts; the root conversion is the first.
+RECURSIVE FaultPath(_,_,_,_,_,_,_), FaultFields(_,_,_,_,_,_,_), FaultElems(_,_,_,_,_,_,_)
+NoPath == <<<<"-">>>>
+FaultPath(prog, s, t, v, faults, path0, cont) ==
+  LET start == ~cont /\ (s.k = "named" \/ (s.k = "ptr" /\ s.e.k = "named"))
+      path == IF start THEN Append(path0, <<>>) ELSE path0 IN
   IF (s = INT /\ t = STR) \/ s.k = "meth" THEN (IF prog.extErr /\ v.tok \in faults THEN path ELSE NoPath)
   ELSE IF s.k = "basic" THEN NoPath
-  ELSE IF s.k = "ptr" THEN (IF v = Nil THEN NoPath ELSE FaultPath(prog, s.e, TE(t), v.e, faults, path))
+  ELSE IF s.k = "ptr" THEN (IF v = Nil THEN NoPath ELSE FaultPath(prog, s.e, TE(t), v.e, faults, path, s.e.k = "named"))
   ELSE IF s.k = "slice" THEN (IF v = Nil THEN NoPath ELSE FaultElems(prog, s.e, t.e, v.es, 1, faults, path))
   ELSE IF s.k = "map" THEN
        (IF v = Nil \/ v.kv = {} THEN NoPath
-        ELSE LET e == CHOOSE x \in v.kv : TRUE pk == Append(path, PKey(e[1])) fk == FaultPath(prog, s.key, t.key, e[1], faults, pk) IN
-             IF fk # NoPath THEN fk ELSE FaultPath(prog, s.e, t.e, e[2], faults, pk))
+        ELSE LET e == CHOOSE x \in v.kv : TRUE pk == AddE(path, PKey(e[1])) fk == FaultPath(prog, s.key, t.key, e[1], faults, pk, FALSE) IN
+             IF fk # NoPath THEN fk ELSE FaultPath(prog, s.e, t.e, e[2], faults, pk, FALSE))
   ELSE FaultFields(prog, DF(prog.shape, s.id), DF(prog.shape, t.id), v, 1, faults, path)
 FaultFields(prog, sf, tf, v, i, faults, path) ==
   IF i > Len(tf) THEN NoPath
-  ELSE LET f == FaultPath(prog, sf[i].t, tf[i].t, v.fs[i], faults, Append(path, PField(tf[i].n))) IN
+  ELSE LET f == FaultPath(prog, sf[i].t, tf[i].t, v.fs[i], faults, AddE(path, PField(tf[i].n)), FALSE) IN
        IF f # NoPath THEN f ELSE FaultFields(prog, sf, tf, v, i + 1, faults, path)
 FaultElems(prog, s, t, es, i, faults, path) ==
   IF i > Len(es) THEN NoPath
-  ELSE LET f == FaultPath(prog, s, t, es[i], faults, Append(path, PIndex(i))) IN
+  ELSE LET f == FaultPath(prog, s, t, es[i], faults, AddE(path, PIndex(i)), FALSE) IN
        IF f # NoPath THEN f ELSE FaultElems(prog, s, t, es, i + 1, faults, path)
 ValueOK(prog, v, faults, o) ==
   LET reached == Reached(prog, RootSrc, RootTgt, v, faults) IN
   IF reached = {} THEN o.err = "" /\ o.v = SMapN(prog, RootSrc, RootTgt, v)
-  ELSE o.err \in reached /\ (prog.wrap = "using" => o.path = FaultPath(prog, RootSrc, RootTgt, v, faults, <<>>))
+  ELSE o.err \in reached /\ (prog.wrap # "none" => Reported(prog, o.path) = Reported(prog, FaultPath(prog, RootSrc, RootTgt, v, faults, <<>>, FALSE)))
 =============================================================================
